@@ -103,8 +103,9 @@ fn run_scenario(sc: &Value, t: &mut Tracer) {
 		None
 	};
 	let mut send2_h = if send2 { Some(sim.manager.add_send_track(SendTrackBuilder::new()).unwrap()) } else { None };
+	let persist_b = s["persistB"].as_bool().unwrap_or(false);
 	let tb = |name: &str| {
-		let mut x = TrackBuilder::new().volume(db(vol(name)));
+		let mut x = TrackBuilder::new().volume(db(vol(name))).persist_until_sounds_finish(name == "B" && persist_b);
 		if fx(name) {
 			x = x.with_built_effect(Box::new(Halve));
 		}
